@@ -3,12 +3,15 @@ import FrappyModel.Wire.Senders
 namespace Frappy.Wire
 
 /-- `P` holds for every frame still queued, being sent, or sent; only the lock holder is inside
-`sendall`; the output is the completed frames followed by the written part of the holder's frame -/
+`sendall`, and only while no send has failed; the output is the completed frames followed by the written
+part of the holder's frame, or -- after a send has failed -- by the written part of the torn frame, which
+lacks at least one byte of a frame satisfying `P` -/
 def SendInv (P : Bytes → Prop) (s : SockState) : Prop :=
   (∀ i, ∀ f ∈ s.queue i, P f) ∧ (∀ f ∈ s.done, P f) ∧
   match s.lock with
-  | none => (∀ j, s.cur j = none) ∧ s.out = s.done.flatten
-  | some i => (∀ j, j ≠ i → s.cur j = none) ∧
+  | none => (∀ j, s.cur j = none) ∧ s.out = s.done.flatten ++ s.tail ∧ (s.running = true → s.tail = [])
+      ∧ (s.running = false → ∃ r, r ≠ [] ∧ P (s.tail ++ r))
+  | some i => (∀ j, j ≠ i → s.cur j = none) ∧ s.running = true ∧ s.tail = [] ∧
       ∃ w r, s.cur i = some (w, r) ∧ P (w ++ r) ∧ s.out = s.done.flatten ++ w
 
 theorem upd_same {α : Type} (f : Nat → α) (i : Nat) (a : α) : upd f i a i = a := by simp [upd]
@@ -22,10 +25,27 @@ theorem sendInv_init (P : Bytes → Prop) (queue : Nat → List Bytes) (h : ∀ 
 theorem sendInv_step (P : Bytes → Prop) {s t : SockState} (hinv : SendInv P s) (hstep : SendStep s t) :
     SendInv P t := by
   obtain ⟨hq, hd, hl⟩ := hinv
+  -- whoever is inside `sendall` holds the lock
+  have holder : ∀ i w r, s.cur i = some (w, r) → ∃ w' r', s.lock = some i ∧ (∀ j, j ≠ i → s.cur j = none) ∧ s.running = true
+      ∧ s.tail = [] ∧ s.cur i = some (w', r') ∧ P (w' ++ r') ∧ s.out = s.done.flatten ++ w' := by
+    intro i w r hcur
+    cases hlock : s.lock with
+    | none =>
+      rw [hlock] at hl
+      rw [hl.1 i] at hcur; cases hcur
+    | some h =>
+      rw [hlock] at hl
+      obtain ⟨hothers, hrun, htail, w', r', hc, hp, hout⟩ := hl
+      have hih : i = h := by
+        false_or_by_contra
+        rename_i hne
+        rw [hothers i hne] at hcur; cases hcur
+      subst hih
+      exact ⟨w', r', rfl, hothers, hrun, htail, hc, hp, hout⟩
   cases hstep with
-  | acquire i f q hlock hqueue =>
+  | acquire i f q hlock hrun hqueue =>
     rw [hlock] at hl
-    obtain ⟨hcur, hout⟩ := hl
+    obtain ⟨hcur, hout, htail, _⟩ := hl
     refine ⟨?_, hd, ?_⟩
     · intro j g hg
       simp only at hg
@@ -35,55 +55,56 @@ theorem sendInv_step (P : Bytes → Prop) {s t : SockState} (hinv : SendInv P s)
         exact hq j g (by rw [hqueue]; exact List.mem_cons_of_mem _ hg)
       · rw [upd_other _ _ hj] at hg; exact hq j g hg
     · simp only
-      refine ⟨fun j hj => by rw [upd_other _ _ hj]; exact hcur j, [], f, upd_same _ _ _, ?_, by simpa using hout⟩
+      refine ⟨fun j hj => by rw [upd_other _ _ hj]; exact hcur j, hrun, htail hrun, [], f, upd_same _ _ _, ?_,
+        by simpa [htail hrun] using hout⟩
       exact hq i f (by rw [hqueue]; exact List.mem_cons_self ..)
   | write i w r k hcur =>
-    cases hlock : s.lock with
-    | none =>
-      rw [hlock] at hl
-      rw [hl.1 i] at hcur; cases hcur
-    | some h =>
-      rw [hlock] at hl
-      obtain ⟨hothers, w', r', hc, hp, hout⟩ := hl
-      have hih : i = h := by
-        false_or_by_contra
-        rename_i hne
-        rw [hothers i hne] at hcur; cases hcur
-      subst hih
-      rw [hc] at hcur
-      cases hcur
-      refine ⟨hq, hd, ?_⟩
-      simp only
-      refine ⟨fun j hj => by rw [upd_other _ _ hj]; exact hothers j hj, _, _, upd_same _ _ _, ?_, ?_⟩
-      · rw [List.append_assoc, List.take_append_drop]; exact hp
-      · rw [hout, List.append_assoc]
+    obtain ⟨w', r', hlock, hothers, hrun, htail, hc, hp, hout⟩ := holder i w r hcur
+    rw [hc] at hcur
+    cases hcur
+    refine ⟨hq, hd, ?_⟩
+    simp only [hlock]
+    refine ⟨fun j hj => by rw [upd_other _ _ hj]; exact hothers j hj, hrun, htail, _, _, upd_same _ _ _, ?_, ?_⟩
+    · rw [List.append_assoc, List.take_append_drop]; exact hp
+    · rw [hout, List.append_assoc]
   | release i w hcur =>
-    cases hlock : s.lock with
-    | none =>
-      rw [hlock] at hl
-      rw [hl.1 i] at hcur; cases hcur
-    | some h =>
-      rw [hlock] at hl
-      obtain ⟨hothers, w', r', hc, hp, hout⟩ := hl
-      have hih : i = h := by
-        false_or_by_contra
-        rename_i hne
-        rw [hothers i hne] at hcur; cases hcur
-      subst hih
-      rw [hc] at hcur
-      cases hcur
-      refine ⟨hq, ?_, ?_⟩
-      · intro f hf
-        rcases List.mem_append.1 hf with hf | hf
-        · exact hd f hf
-        · simp only [List.mem_singleton] at hf
-          subst hf
-          simpa using hp
-      · simp only
-        refine ⟨fun j => ?_, by simp [hout]⟩
-        by_cases hj : j = i
-        · subst hj; exact upd_same _ _ _
-        · rw [upd_other _ _ hj]; exact hothers j hj
+    obtain ⟨w', r', hlock, hothers, hrun, htail, hc, hp, hout⟩ := holder i w [] hcur
+    rw [hc] at hcur
+    cases hcur
+    refine ⟨hq, ?_, ?_⟩
+    · intro f hf
+      rcases List.mem_append.1 hf with hf | hf
+      · exact hd f hf
+      · simp only [List.mem_singleton] at hf
+        subst hf
+        simpa using hp
+    · simp only
+      refine ⟨fun j => ?_, by simp [hout, htail], fun _ => htail, fun h => by rw [hrun] at h; cases h⟩
+      by_cases hj : j = i
+      · subst hj; exact upd_same _ _ _
+      · rw [upd_other _ _ hj]; exact hothers j hj
+  | fail i w r hcur hr =>
+    obtain ⟨w', r', hlock, hothers, hrun, htail, hc, hp, hout⟩ := holder i w r hcur
+    rw [hc] at hcur
+    cases hcur
+    refine ⟨hq, hd, ?_⟩
+    simp only
+    refine ⟨fun j => ?_, hout, by simp, fun _ => ⟨r, hr, hp⟩⟩
+    by_cases hj : j = i
+    · subst hj; exact upd_same _ _ _
+    · rw [upd_other _ _ hj]; exact hothers j hj
+  | skip i f q hlock hrun hqueue =>
+    rw [hlock] at hl
+    refine ⟨?_, hd, ?_⟩
+    · intro j g hg
+      simp only at hg
+      by_cases hj : j = i
+      · subst hj
+        rw [upd_same] at hg
+        exact hq j g (by rw [hqueue]; exact List.mem_cons_of_mem _ hg)
+      · rw [upd_other _ _ hj] at hg; exact hq j g hg
+    · simp only [hlock]
+      exact hl
 
 theorem sendInv_reach (P : Bytes → Prop) (queue : Nat → List Bytes) (h : ∀ i, ∀ f ∈ queue i, P f)
     {s : SockState} (hr : SendReach (sockInit queue) s) : SendInv P s := by
@@ -91,31 +112,34 @@ theorem sendInv_reach (P : Bytes → Prop) (queue : Nat → List Bytes) (h : ∀
   | start => exact sendInv_init P queue h
   | step s t _ hstep ih => exact sendInv_step P ih hstep
 
-/-- per sender, nothing is lost, duplicated or reordered: what it has sent, what it is sending and what it
-will send are, in this order, the frames it set out to send; and `doneBy` is `done` with sender numbers -/
+/-- per sender, nothing is duplicated or reordered, and nothing is lost unless a send has failed: what it has sent,
+what it is sending, what was not delivered after a send had failed and what it will send are, in this order, the
+frames it set out to send; and `doneBy` is `done` with sender numbers -/
 def OrderInv (queue0 : Nat → List Bytes) (s : SockState) : Prop :=
-  s.done = s.doneBy.map Prod.snd ∧ ∀ i, sentBy s i ++ inFlight s i ++ s.queue i = queue0 i
+  s.done = s.doneBy.map Prod.snd ∧ (∀ i, sentBy s i ++ inFlight s i ++ s.lost i ++ s.queue i = queue0 i)
+  ∧ (s.running = true → ∀ i, s.lost i = [])
 
 theorem orderInv_init (queue : Nat → List Bytes) : OrderInv queue (sockInit queue) := by
-  refine ⟨rfl, fun i => ?_⟩
+  refine ⟨rfl, fun i => ?_, fun _ _ => rfl⟩
   simp [sockInit, sentBy, inFlight]
 
 theorem orderInv_step (queue0 : Nat → List Bytes) {s t : SockState} (hinv : OrderInv queue0 s) (hstep : SendStep s t)
-    (hcur : ∀ i, s.lock = none → s.cur i = none) : OrderInv queue0 t := by
-  obtain ⟨hd, ho⟩ := hinv
+    (hcur : ∀ i, s.lock = none → s.cur i = none) (hrun : ∀ i w r, s.cur i = some (w, r) → s.running = true) :
+    OrderInv queue0 t := by
+  obtain ⟨hd, ho, hlost⟩ := hinv
   cases hstep with
-  | acquire i f q hlock hqueue =>
-    refine ⟨hd, fun j => ?_⟩
+  | acquire i f q hlock hr hqueue =>
+    refine ⟨hd, fun j => ?_, hlost⟩
     have := ho j
     by_cases hj : j = i
     · subst hj
       have hc := hcur j hlock
-      simp only [sentBy, inFlight, hc, hqueue, upd_same] at this ⊢
+      simp only [sentBy, inFlight, hc, hqueue, upd_same, hlost hr j] at this ⊢
       simpa using this
     · simp only [sentBy, inFlight, upd_other _ _ hj] at this ⊢
       exact this
   | write i w r k hc =>
-    refine ⟨hd, fun j => ?_⟩
+    refine ⟨hd, fun j => ?_, hlost⟩
     have := ho j
     by_cases hj : j = i
     · subst hj
@@ -125,7 +149,7 @@ theorem orderInv_step (queue0 : Nat → List Bytes) {s t : SockState} (hinv : Or
     · simp only [sentBy, inFlight, upd_other _ _ hj] at this ⊢
       exact this
   | release i w hc =>
-    refine ⟨by simp [hd], fun j => ?_⟩
+    refine ⟨by simp [hd], fun j => ?_, hlost⟩
     have := ho j
     by_cases hj : j = i
     · subst hj
@@ -134,15 +158,54 @@ theorem orderInv_step (queue0 : Nat → List Bytes) {s t : SockState} (hinv : Or
     · have hne : (i == j) = false := by simpa using fun h => hj h.symm
       simp only [sentBy, inFlight, upd_other _ _ hj] at this ⊢
       simpa [List.filter_append, hne] using this
+  | fail i w r hc hr =>
+    refine ⟨hd, fun j => ?_, fun h => by cases h⟩
+    have := ho j
+    by_cases hj : j = i
+    · subst hj
+      simp only [sentBy, inFlight, hc, upd_same, hlost (hrun j w r hc) j] at this ⊢
+      simpa using this
+    · simp only [sentBy, inFlight, upd_other _ _ hj] at this ⊢
+      exact this
+  | skip i f q hlock hr hqueue =>
+    refine ⟨hd, fun j => ?_, fun h => by rw [hr] at h; cases h⟩
+    have := ho j
+    by_cases hj : j = i
+    · subst hj
+      simp only [sentBy, inFlight, hqueue, upd_same] at this ⊢
+      simpa using this
+    · simp only [sentBy, inFlight, upd_other _ _ hj] at this ⊢
+      exact this
 
 theorem orderInv_reach (P : Bytes → Prop) (queue : Nat → List Bytes) (h : ∀ i, ∀ f ∈ queue i, P f)
     {s : SockState} (hr : SendReach (sockInit queue) s) : OrderInv queue s := by
   induction hr with
   | start => exact orderInv_init queue
   | step s t hs hstep ih =>
-    refine orderInv_step queue ih hstep (fun i hl => ?_)
-    have := (sendInv_reach P queue h hs).2.2
-    rw [hl] at this
-    exact this.1 i
+    have hinv := (sendInv_reach P queue h hs).2.2
+    refine orderInv_step queue ih hstep (fun i hl => ?_) (fun i w r hc => ?_)
+    · rw [hl] at hinv
+      exact hinv.1 i
+    · cases hl : s.lock with
+      | none =>
+        rw [hl] at hinv
+        rw [hinv.1 i] at hc; cases hc
+      | some j =>
+        rw [hl] at hinv
+        exact hinv.2.1
+
+/-- a proper part of `body ++ [a]` (at least one element is missing at the end) does not contain `a` if `body` does not -/
+theorem not_mem_of_proper_prefix {a : Nat} {t r body : Bytes} (h : t ++ r = body ++ [a]) (hr : r ≠ []) (hb : a ∉ body) :
+    a ∉ t := by
+  rcases List.append_eq_append_iff.1 h with ⟨a', hb', _⟩ | ⟨c', ht, hc⟩
+  · intro hm
+    exact hb (hb' ▸ List.mem_append_left _ hm)
+  · cases c' with
+    | nil => simp at ht; subst ht; exact hb
+    | cons x xs =>
+      simp only [List.cons_append, List.cons.injEq] at hc
+      have := hc.2
+      simp at this
+      exact absurd this.2 hr
 
 end Frappy.Wire
